@@ -82,8 +82,12 @@ def run(idx: Index, rep: Report, tier: str):
     if nb:
         a, b = sp.symbols("a b", integer=True)
         ok = True
+        na = [n for n in own_nodes(gv.node) if isinstance(n, ast.Assign) and norm(n.targets[0]) == "n_alpha"]
         for r in (0, 1):
-            val = sp.simplify(symx.to_sympy(nb[0].value, {"n_electrons": 2 * a + r, "spin": 2 * b + r}))
+            env = {"n_electrons": 2 * a + r, "spin": 2 * b + r}
+            if na:
+                env["n_alpha"] = sp.simplify(symx.to_sympy(na[0].value, dict(env)))          # n_beta may be written as what is left after the alpha electrons
+            val = sp.simplify(symx.to_sympy(nb[0].value, env))
             ok = ok and sp.simplify(val - (a - b)) == 0
     rep.decide(ok, rule, gv, nb[0] if nb else gv.node, text=f"get_vector: {norm(nb[0]) if nb else 'n_beta'}", what="the number of beta electrons is (n - s)/2", reason="formula differs from (n - s)/2")
     # which positions are filled is decided by folding get_vector on every (spin-orbitals, electrons, spin) below (K9.vector-to-circuit), not by the spelling of the slices
